@@ -47,7 +47,7 @@ def has_quant(t):
 class Engine(Evaluator):
     BUILTINS = {'len', 'min', 'max', 'abs', 'int', 'range', 'list', 'tuple', 'isinstance', 'slice', 'all', 'any',
                 'implies', 'old', 'enumerate', 'zip', 'ceil', 'floor', 'float', 'bool', 'str', 'dict', 'getattr',
-                'round', 'iff', 'sorted', 'ite', 'map', 'super', 'fresh_obj', 'same_fields_except', 'is_fresh'}
+                'round', 'iff', 'sorted', 'ite', 'map', 'super', 'fresh_obj', 'same_fields_except', 'is_fresh', 'psum'}
 
     def __init__(self, spec_module_path=None):
         self.obs = []
@@ -400,6 +400,19 @@ class Engine(Evaluator):
                     if len(args) > 2:
                         return args[2]
                     raise
+        if name == 'psum':
+            # prefix sum of the first k elements of an int list: uninterpreted with its recursive definition as axioms
+            lv, k = args[0], as_int(args[1])
+            cell = st.heap.lists[lv.ref]
+            arr = cell.leaves[0]
+            f = z3.Function('psum', z3.ArraySort(z3.IntSort(), z3.IntSort()), z3.IntSort(), z3.IntSort())
+            key = ('psum', arr.get_id())
+            if not any(getattr(t, '_psum_key', None) == key for t in st.pc):
+                q = z3.Int(fresh_name('q'))
+                ax = z3.And(f(arr, z3.IntVal(0)) == 0, z3.ForAll([q], z3.Implies(q >= 0, f(arr, q + 1) == f(arr, q) + arr[q])))
+                ax._psum_key = key
+                st.pc.append(ax)
+            return VInt(f(arr, k))
         if name == 'is_fresh':
             v = args[0]
             return VBool(z3.BoolVal(isinstance(v, (VObj, VList)) and v.ref >= st.old['next_ref']))
@@ -747,6 +760,11 @@ class Engine(Evaluator):
 
     def assign(self, tgt, val, st):
         if isinstance(tgt, ast.Name):
+            if isinstance(val, VList) and st.heap.lists[val.ref].etype is None and tgt.id in self.cur.locals:
+                t = parse_type(self.cur.locals[tgt.id])
+                if t[0] == 'list':
+                    cell = st.heap.lists[val.ref]
+                    st.heap.lists[val.ref] = ListCell(t[1], cell.length, [z3.K(z3.IntSort(), self.default_of(s)) for s in leaf_sorts(t[1])])
             st.env[tgt.id] = val
         elif isinstance(tgt, (ast.Tuple, ast.List)):
             items = self.unpack(val, len(tgt.elts), st, tgt)
